@@ -14,9 +14,17 @@ Inductive c37_case :=
 | EqRpcClient (a b : lookupRpcClient) (obs : bool)
 | EqHttp (a b : lookupHTTPHandler) (obs : bool)
 | EqSignal (a b : signalPeer) (obs : bool)
-| EqGetPeer (a b : getPeer) (obs : bool).
+| EqGetPeer (a b : getPeer) (obs : bool)
+(* the two real url.URL values of the refutation witness, as records, and the real IsEquivalent on them *)
+| HttpWitness (a b : lookupHTTPHandler) (obs : bool).
 
 Definition idb (x : bytes) : bytes := x.
+
+Definition http_eqb (a b : lookupHTTPHandler) : bool :=
+  bytes_eqb (lookupHTTPHandler_handlerMethod a) (lookupHTTPHandler_handlerMethod b)
+  && bytes_eqb (url_text (lookupHTTPHandler_handlerURL a)) (url_text (lookupHTTPHandler_handlerURL b))
+  && bytes_eqb (url_path (lookupHTTPHandler_handlerURL a)) (url_path (lookupHTTPHandler_handlerURL b))
+  && bytes_eqb (lookupHTTPHandler_clientID a) (lookupHTTPHandler_clientID b).
 
 Definition c37_agree (c : c37_case) : bool :=
   match c with
@@ -31,4 +39,7 @@ Definition c37_agree (c : c37_case) : bool :=
   | EqHttp a b o => Bool.eqb (lookupHTTPHandler_is_equivalent idb a b) o
   | EqSignal a b o => Bool.eqb (signalPeer_is_equivalent idb a b) o
   | EqGetPeer a b o => Bool.eqb (getPeer_is_equivalent idb a b) o
+  | HttpWitness a b o =>
+      http_eqb a c37_witness_a && http_eqb b c37_witness_b
+      && Bool.eqb (lookupHTTPHandler_is_equivalent idb a b) o
   end.
